@@ -105,256 +105,27 @@ def rule_numberify_null(P) -> RuleResult:
     return res
 
 
-def _aspects(P, m, name):
-    """Comparable aspects of one converter family."""
-    conv = m.classes[f'{name}Converter']
-    census = m.toplevel_funcs[f'convert_col_{name}'][-1]
-    out = {}
-    out['dtype'] = unparse(conv.attrs['dtype']) if 'dtype' in conv.attrs else None
-    rets = [n for n in ast.walk(census.node) if isinstance(n, ast.Return)]
-    comp = rets[-1].value if rets else None
-    if isinstance(comp, ast.ListComp) and isinstance(comp.elt, ast.Call):
-        c = comp.elt
-        out['converter'] = unparse(c.func)
-        out['name_template'] = unparse(c.args[0]) if c.args else None
-        out['converter_args'] = [unparse(a) for a in c.args[1:]]
-        g = comp.generators[0]
-        s = g.iter
-        if isinstance(s, ast.Call) and unparse(s.func) == 'sorted':
-            kw = {k.arg: unparse(k.value) for k in s.keywords}
-            out['census_key'] = kw.get('key')
-            out['census_reverse'] = kw.get('reverse')
-            out['census_source'] = unparse(s.args[0]) if s.args else None
-        else:
-            out['census_key'] = out['census_reverse'] = None
-            out['census_source'] = unparse(s)
-    call = conv.methods.get('__call__')
-    src = unparse(call.node)
-    qs = [n for n in ast.walk(call.node) if isinstance(n, ast.Call) and unparse(n.func).endswith('.quantize')]
-    out['quantize_currency'] = unparse(qs[0].args[1]) if qs and len(qs[0].args) > 1 else None
-    guarded = False
-    for n in ast.walk(call.node):
-        if isinstance(n, ast.If) and any(x is q for q in qs for x in ast.walk(n)):
-            if 'dformat' in {x.id for x in ast.walk(n.test) if isinstance(x, ast.Name)}:
-                guarded = True
-    out['quantize_iff_dformat'] = guarded
-    # quantisation applies once, to the number of the cell (summed over lots), not to the parts it is summed from
-    out['quantize_once_per_cell'] = not any(isinstance(n, (ast.For, ast.While, ast.ListComp, ast.GeneratorExp)) and any(x is q for q in qs for x in ast.walk(n))
-                                            for n in ast.walk(call.node))
-    out['index_param'] = 'self.index' in src
-    return out
 
 
-def rule_siblings(P) -> RuleResult:
-    res = RuleResult('R-SIBLINGS')
-    m = P.module(NU)
-    fam = {}
-    for name, _ in TRIPLE:
-        if f'{name}Converter' not in m.classes or f'convert_col_{name}' not in m.toplevel_funcs:
-            raise AnalysisError(f'anchor vanished: numberify family {name}')
-        fam[name] = _aspects(P, m, name)
-    keys = sorted(set().union(*[set(a) for a in fam.values()]) - {'converter'})
-    for k in keys:
-        vals = {n: fam[n].get(k) for n in fam}
-        # the converter class name differs by construction: normalise it out of the values
-        norm = {n: (str(v).replace(n, '<T>') if v is not None else None) for n, v in vals.items()}
-        distinct = set(map(repr, norm.values()))
-        if len(distinct) == 1:
-            res.ok({'aspect': k, 'value': next(iter(norm.values()))})
-            continue
-        # the deviant sibling
-        counts = {}
-        for n, v in norm.items():
-            counts.setdefault(repr(v), []).append(n)
-        minority = min(counts.values(), key=len)
-        for n in minority:
-            others = [x for x in fam if x != n]
-            res.fail(f'{NU}:{n}Converter', f'siblings:{k}',
-                     f'the {n} converter family deviates from its siblings in `{k}`: {vals[n]!r} versus {vals[others[0]]!r} '
-                     f'({", ".join(others)})', loc(m.classes[f'{n}Converter']))
-    # absolute requirements of the statement
-    for n, a in fam.items():
-        if a.get('dtype') != 'Decimal':
-            res.fail(f'{NU}:{n}Converter', 'siblings:dtype', f'numberified columns are decimal columns; {n}Converter.dtype is {a.get("dtype")}')
-        if a.get('census_reverse') != 'True' or 'item[1]' not in (a.get('census_key') or '').replace(' ', ''):
-            res.fail(f'{NU}:convert_col_{n}', 'siblings:order', f'currency columns must be ordered by decreasing frequency '
-                     f'(sorted by count, reverse=True); found key={a.get("census_key")}, reverse={a.get("census_reverse")}')
-        tmpl = (a.get('name_template') or '').replace(' ', '')
-        if tmpl not in ("'{}({})'.format(name,currency)", "f'{name}({currency})'"):
-            res.fail(f'{NU}:convert_col_{n}', 'siblings:name', f'columns must be named "name (CUR)"; template is {a.get("name_template")}')
-        if a.get('quantize_once_per_cell') is False:
-            res.fail(f'{NU}:{n}Converter', 'siblings:quantize-parts', f'{n}Converter quantizes inside a loop: the parts are rounded before '
-                     f'they are summed, so the cell is no longer the quantized number of units of the currency')
-        if a.get('quantize_currency') != 'self.currency' or not a.get('quantize_iff_dformat'):
-            res.fail(f'{NU}:{n}Converter', 'siblings:quantize', f'{n}Converter must quantize to its own currency exactly when a '
-                     f'formatter is given')
-    return res
 
 
-def rule_identity(P) -> RuleResult:
-    res = RuleResult('R-IDENTITY')
-    m = P.module(NU)
-    reg = registry.get(P)
-    fn = m.toplevel_funcs.get('numberify_results')
-    if not fn:
-        raise AnalysisError('anchor vanished: numberify_results')
-    fi = fn[-1]
-    src = unparse(fi.node)
-    n0 = len(res.findings)
-    # CONVERTING_TYPES maps each type to the factory of the same name
-    for t, fname in reg.converting_types.items():
-        if fname != f'convert_col_{t.__name__}':
-            res.fail(f'{NU}:CONVERTING_TYPES', f'identity:map:{t.__name__}', f'{t.__name__} columns are converted by {fname}')
-        else:
-            res.ok({'type': t.__name__, 'factory': fname})
-    if set(reg.converting_types) != {amount.Amount, position.Position, inventory.Inventory}:
-        res.fail(f'{NU}:CONVERTING_TYPES', 'identity:types', 'exactly Amount, Position and Inventory columns are numberified')
-    # identity converter for everything else, bound to the same index, name, dtype
-    calls = [n for n in ast.walk(fi.node) if isinstance(n, ast.Call) and unparse(n.func) == 'IdentityConverter']
-    loops = [n for n in fi.node.body if isinstance(n, ast.For)]
-    if len(calls) != 1 or not loops:
-        raise AnalysisError(f'{fi.fq}: shape not understood')
-    lp = loops[0]
-    if not (isinstance(lp.iter, ast.Call) and unparse(lp.iter.func) == 'enumerate'):
-        raise AnalysisError(f'{fi.fq}: converter loop is not over enumerate(columns)')
-    iv, cv = (unparse(x) for x in lp.target.elts)
-    if [unparse(a) for a in calls[0].args] != [f'{cv}.name', f'{cv}.datatype', iv]:
-        res.fail(fi.fq, 'identity:args', f'other columns must be copied unchanged: IdentityConverter({cv}.name, {cv}.datatype, {iv}); '
-                 f'found `{unparse(calls[0])}`', loc(fi, calls[0]))
-    fac = [n for n in ast.walk(lp) if isinstance(n, ast.Call) and isinstance(n.func, ast.Name) and n.func.id not in ('IdentityConverter', 'enumerate')
-           and len(n.args) == 3]
-    if not fac or [unparse(a) for a in fac[0].args][0] != f'{cv}.name' or unparse(fac[0].args[2]) != iv:
-        res.fail(fi.fq, 'identity:factory-args', 'converter factories must receive the column name, the rows and the column index', loc(fi))
-    ident = m.classes.get('IdentityConverter')
-    c = ident.methods.get('__call__') if ident else None
-    if c is None or 'return drow[self.index]' not in unparse(c.node):
-        res.fail(f'{NU}:IdentityConverter', 'identity:copy', 'IdentityConverter must return the cell at its index')
-    # rows: one output row per input row, converters applied in order
-    row_loops = [n for n in fi.node.body if isinstance(n, ast.For) and n is not lp]
-    if len(row_loops) != 1:
-        raise AnalysisError(f'{fi.fq}: row loop not found')
-    rl = row_loops[0]
-    inner = [n for n in rl.body if isinstance(n, ast.For)]
-    apps = [n for n in ast.walk(rl) if isinstance(n, ast.Call) and isinstance(n.func, ast.Attribute) and n.func.attr == 'append']
-    if len(inner) != 1 or unparse(inner[0].iter) != 'converters' or len(apps) != 2:
-        res.fail(fi.fq, 'identity:rows', 'every input row must yield one output row built by applying all converters in order', loc(fi, rl))
-    if 'tuple(Column(c.name, c.dtype) for c in converters)' not in src.replace('\n', ' '):
-        res.info('output description shape not recognised (not judged)')
-    if len(res.findings) == n0:
-        res.ok({'function': fi.fq, 'identity': 'name, datatype, index', 'rows': 'one per input row, converters in column order'})
-    return res
 
 
 # ----------------------------------------------------------------------
 # R-REDUCE (C12): f(inventory) is defined as f mapped over the positions of the inventory
 
-def rule_reduce(P) -> RuleResult:
-    from beancount.core import inventory as _inv, position as _pos
-    res = RuleResult('R-REDUCE')
-    reg = registry.get(P)
-    by = reg.funcs_by_name()
-    n = 0
-    for name in ('units', 'cost', 'value', 'convert'):
-        pos_f = [f for f in by.get(name, []) if f.intypes and f.intypes[0] is _pos.Position and f.impl is not None]
-        inv_f = [f for f in by.get(name, []) if f.intypes and f.intypes[0] is _inv.Inventory and f.impl is not None]
-        if not pos_f or not inv_f:
-            raise AnalysisError(f'anchor vanished: position / inventory overloads of {name}()')
-        pimpl, iimpl = pos_f[0].impl, inv_f[0].impl
-        # the position overload: return convert.X(pos, extra...)
-        prets = [x for x in ast.walk(pimpl.node) if isinstance(x, ast.Return) and x.value is not None]
-        irets = [x for x in ast.walk(iimpl.node) if isinstance(x, ast.Return) and x.value is not None]
-        if len(prets) != 1 or len(irets) != 1 or not isinstance(prets[0].value, ast.Call) or not isinstance(irets[0].value, ast.Call):
-            raise AnalysisError(f'{name}(): overload bodies not understood')
-        pc, ic = prets[0].value, irets[0].value
-        pfn = pimpl.module.dotted(pc.func)
-        p_off = 1 if (pos_f[0].pass_context or pos_f[0].pass_row) else 0
-        i_off = 1 if (inv_f[0].pass_context or inv_f[0].pass_row) else 0
-        pparam = pimpl.params[p_off]
-        iparam = iimpl.params[i_off]
-        pextra = [unparse(a) for a in pc.args[1:]]
-        construct = f'function:{inv_f[0].label}'
-        n += 1
-        ok = (isinstance(ic.func, ast.Attribute) and ic.func.attr == 'reduce' and unparse(ic.func.value) == iparam
-              and ic.args and iimpl.module.dotted(ic.args[0]) == pfn and [unparse(a) for a in ic.args[1:]] == pextra
-              and unparse(pc.args[0]) == pparam)
-        if ok:
-            res.ok({'function': name, 'position': f'{pfn}(pos, {", ".join(pextra)})', 'inventory': f'inv.reduce({pfn}, {", ".join(pextra)})'})
-        else:
-            res.fail(construct, 'reduce:definition',
-                     f'{name}(inventory) must be {name}(position) applied to every position of that very inventory - '
-                     f'`{iparam}.reduce({pfn.split(".")[-1]}, {", ".join(pextra)})` - so that it commutes with sum(); found '
-                     f'`{unparse(ic)}`', loc(iimpl))
-    return res
 
 
 # ----------------------------------------------------------------------
 # R-CALSIB (C18): date_trunc / date_part / quarter agree on how each calendar unit is cut
 
-def _unit_params(fi: FuncInfo):
-    """{unit: (date attribute, offset, modulus)} from `if field == 'unit': return <expr with (x.attr + k) % m or // m>`."""
-    out = {}
-    for n in ast.walk(fi.node):
-        if not isinstance(n, ast.If):
-            continue
-        units = re.findall(r"== '(\w+)'", unparse(n.test))
-        rets = [s for s in n.body if isinstance(s, ast.Return)]
-        if not units or not rets:
-            continue
-        p = _modparams(rets[0].value)
-        for u in units:
-            if p:
-                out[u] = p
-    return out
 
 
-def _modparams(expr):
-    for b in ast.walk(expr):
-        if isinstance(b, ast.BinOp) and isinstance(b.op, (ast.Mod, ast.FloorDiv)) and isinstance(b.right, ast.Constant) \
-                and isinstance(b.right.value, int):
-            left = b.left
-            off = 0
-            if isinstance(left, ast.BinOp) and isinstance(left.op, (ast.Add, ast.Sub)) and isinstance(left.right, ast.Constant):
-                off = left.right.value if isinstance(left.op, ast.Add) else -left.right.value
-                left = left.left
-            if isinstance(left, ast.Attribute) and isinstance(left.value, ast.Name):
-                return (left.attr, off, b.right.value)
-    return None
 
 
 import re  # noqa: E402
 
 
-def rule_calsib(P) -> RuleResult:
-    res = RuleResult('R-CALSIB')
-    m = P.module('beanquery.query_env')
-    fs = {}
-    for name in ('date_trunc', 'date_part', 'quarter'):
-        f = m.toplevel_funcs.get(name)
-        if not f:
-            raise AnalysisError(f'anchor vanished: query_env.{name}')
-        fs[name] = f[0] if name == 'quarter' else f[-1]
-    trunc = _unit_params(fs['date_trunc'])
-    part = _unit_params(fs['date_part'])
-    q = None
-    for r in ast.walk(fs['quarter'].node):
-        if isinstance(r, ast.Return):
-            q = _modparams(r.value)
-    if len(trunc) < 3 or len(part) < 3:
-        raise AnalysisError('calendar unit formulas of date_trunc / date_part not recognised')
-    for unit in sorted(set(trunc) & set(part)):
-        if trunc[unit] != part[unit]:
-            res.fail(f'function:date_part[{unit}]', f'calsib:{unit}',
-                     f"date_trunc('{unit}') cuts {trunc[unit][0]} as ({trunc[unit][0]} {trunc[unit][1]:+d}) mod {trunc[unit][2]} but "
-                     f"date_part('{unit}') numbers it as ({part[unit][0]} {part[unit][1]:+d}) div {part[unit][2]}: a date and the start of "
-                     f"its {unit} get different {unit} numbers at the boundary", loc(fs['date_part']))
-        else:
-            res.ok({'unit': unit, 'attribute': trunc[unit][0], 'offset': trunc[unit][1], 'period': trunc[unit][2]})
-    if q is not None and 'quarter' in part:
-        if q != part['quarter']:
-            res.fail('function:quarter', 'calsib:quarter-function', f"quarter() computes {q}, date_part('quarter') {part['quarter']}", loc(fs['quarter']))
-        else:
-            res.ok({'unit': 'quarter()', 'agrees_with': "date_part('quarter')"})
-    return res
 
 
 # ----------------------------------------------------------------------
@@ -409,45 +180,3 @@ def _rooted_in(e, env):
     return isinstance(e, ast.Name) and e.id in env or isinstance(e, (ast.BinOp,))
 
 
-def rule_defn(P) -> RuleResult:
-    res = RuleResult('R-DEFN')
-    reg = registry.get(P)
-    m = P.module('beanquery.query_env')
-    seen = set()
-    for f in reg.funcs:
-        if f.kind != 'function' or f.impl is None or f.name not in DEFINITIONS or (f.name, f.impl.fq) in seen:
-            continue
-        seen.add((f.name, f.impl.fq))
-        fi = f.impl
-        body = body_without_docstring(fi.node)
-        off = 1 if (f.pass_context or f.pass_row) else 0
-        params = fi.params[off:]
-        env = {p: ('p', i) for i, p in enumerate(params)}
-        # defaults make shorter overloads instances of the same definition
-        term = None
-        straight = True
-        for st in body:
-            if isinstance(st, ast.Assign) and len(st.targets) == 1 and isinstance(st.targets[0], ast.Name):
-                env[st.targets[0].id] = _dterm(st.value, env, fi.module)
-            elif isinstance(st, ast.Return) and st.value is not None:
-                term = _dterm(st.value, env, fi.module)
-                break
-            else:
-                straight = False
-                break
-        if not straight or term is None:
-            res.info(f'{f.name}: body is not a straight-line definition (not judged)')
-            continue
-        ref = ast.parse(DEFINITIONS[f.name], mode='eval').body
-        renv = {f'p{i}': ('p', i) for i in range(6)}
-        want = _dterm(ref, renv, m)
-        construct = f'function:{f.name}'
-        if term == want:
-            res.ok({'function': f.name, 'definition': DEFINITIONS[f.name]})
-        else:
-            shown = unparse(next(s.value for s in body if isinstance(s, ast.Return)))
-            res.fail(construct, 'defn:changed', f'{f.name}({", ".join(params)}) is defined as `{DEFINITIONS[f.name]}` '
-                     f'(p0, p1, ... = its arguments); the implementation computes `{shown}`', loc(fi))
-    if len(seen) < 15:
-        raise AnalysisError(f'only {len(seen)} definitional functions found')
-    return res
